@@ -147,6 +147,28 @@ def s6(ctx):
         else:
             ok = got[0] == 'bin' and got[1] == 'Eq' and ((got[2] == K and one_of(got[3])) or (got[3] == K and one_of(got[2])))
             if not ok:
+                # the comparison may be a branch (`matches!(nt, Max(k) if k.get() == 1)`): decide the two cases K == 1 / K != 1 by
+                # answering only the branch conditions that compare K with 1; any other undecided branch leaves a set behind
+                def strip(x):
+                    while x is not None and x[0] == 'call' and len(x[2]) == 1 and term_method(x) in ('get', 'into', 'from', 'clone'):
+                        x = x[2][0]
+                    return x
+
+                def atoms_for(kval):
+                    def f(d):
+                        if strip(d) == K:
+                            return kval
+                        if d[0] == 'bin' and d[1] in ('Eq', 'Ne'):
+                            a, c = strip(d[2]), strip(d[3])
+                            if (a == K and one_of(c)) or (c == K and one_of(a)):
+                                return (kval == 1) == (d[1] == 'Eq')
+                        return None
+                    return f
+                r1 = ctx.opa.run(IS_SEQ, [arg], seeds={'atoms': atoms_for(1), 'key': ('S6', 1)})
+                r2 = ctx.opa.run(IS_SEQ, [arg], seeds={'atoms': atoms_for(2), 'key': ('S6', 2)})
+                ok = norm(r1.ret) == ('const', 1) and norm(r2.ret) == ('const', 0)
+                rows[-1] += ' ; case K == 1 => %s, case K != 1 => %s' % (t_str(r1.ret)[:20], t_str(r2.ret)[:20])
+            if not ok:
                 probs.append('is_sequential(num_threads = Max(K)) = %s, expected K == 1' % t_str(got)[:80])
     out.inst('S6/is_sequential', not probs, '; '.join(rows), sample={'is_sequential': rows})
     for p_ in probs:
@@ -683,7 +705,8 @@ def c13_inventory(ctx):
                              b.where(t.get('line')), kind='undecided')
             elif t.get('unsafe'):
                 n_unsafe += 1
-                if method(t) not in KNOWN_UNSAFE:
+                # a crate-local unsafe fn is no primitive of its own: its body is scanned by this very loop
+                if method(t) not in KNOWN_UNSAFE and not (t.get('local') and callee_of(t) in F.bodies):
                     out.fail('C13-INVENTORY/%s/unsafe-%s' % (key_of(root), method(t)),
                              'unsafe callee %s in %s is outside the reviewed inventory' % (p, key_of(b)), b.where(t.get('line')), kind='undecided')
     out.floor('ownership_primitive_sites', n, 3 if not ctx.fixture else 0)
@@ -737,8 +760,8 @@ def c13_unwrap(ctx):
                 if not users or bad:
                     out.fail('C13-UNWRAP/%s/into_inner' % key_of(F.root_of(b)), '%s: the result of ConcurrentOrderedBag::into_inner is not consumed by unwrap_only_if_counts_match' % key_of(b),
                              b.where(t.get('line')))
-    out.floor('into_inner_sites', n_into, 2 if not ctx.fixture else 0)
-    out.floor('counts_match_unwraps', n_ok, 2 if not ctx.fixture else 0)
+    out.floor('into_inner_sites', n_into, 1 if not ctx.fixture else 0)
+    out.floor('counts_match_unwraps', n_ok, 1 if not ctx.fixture else 0)
     return out
 
 
